@@ -110,6 +110,9 @@ def check_tables(files, r_):
         if l not in toklines[f]:
             P.append("location %s:%d is a line without any token" % (f, l))
     avail = set(pb)
+    if "avail_api" in r_ and set(tuple(x) for x in r_["avail_api"]) != avail:
+        P.append("getAvailableBreakpoints() = %s differs from the keys of location->sites %s" % (
+            sorted(set(tuple(x) for x in r_["avail_api"]) - avail)[:3], sorted(avail - set(tuple(x) for x in r_["avail_api"]))[:3]))
     for st in r_["stops"]:
         if st[0] == "!":
             P.append("stop without site at ip %d" % st[1])
